@@ -1,6 +1,7 @@
 package props
 
 import (
+	"bytes"
 	"encoding/binary"
 	"encoding/hex"
 	"fmt"
@@ -23,7 +24,7 @@ import (
 // drawField draws an expectation for a field whose actual value in the quote is `actual`.
 func drawField(t *rapid.T, name string, actual []byte, s *gen.Stream) []byte {
 	n := len(actual)
-	kind := rapid.SampledFrom([]string{"nil", "nil", "nil", "equal", "equal", "empty", "flip-first", "flip-last", "flip-any", "short", "long", "random", "two-words-cancel", "two-words-cancel"}).Draw(t, name)
+	kind := rapid.SampledFrom([]string{"nil", "nil", "nil", "equal", "equal", "empty", "flip-first", "flip-last", "flip-any", "short", "long", "random", "two-words-cancel", "two-words-cancel", "other-byte-order", "other-byte-order"}).Draw(t, name)
 	gen.Class("opt:" + kind)
 	switch kind {
 	case "nil":
@@ -44,6 +45,33 @@ func drawField(t *rapid.T, name string, actual []byte, s *gen.Stream) []byte {
 		b := append([]byte{}, actual...)
 		bit := rapid.IntRange(0, n*8-1).Draw(t, name+"-bit")
 		b[bit/8] ^= 1 << uint(bit%8)
+		return b
+	case "other-byte-order":
+		// the same number written in another byte order: the whole value reversed, every 2- / 4- / 8-byte word reversed,
+		// or - for a 16-byte identifier - the "GUID" order with its first three groups (4-2-2 bytes) reversed. Another
+		// value, unless the bytes happen to read the same both ways.
+		b := append([]byte{}, actual...)
+		rev := func(x []byte) {
+			for i, j := 0, len(x)-1; i < j; i, j = i+1, j-1 {
+				x[i], x[j] = x[j], x[i]
+			}
+		}
+		switch how := s.Intn(5); {
+		case n == 16 && how < 2:
+			rev(b[0:4])
+			rev(b[4:6])
+			rev(b[6:8])
+		case how == 2:
+			rev(b)
+		default:
+			w := []int{2, 4, 8}[s.Intn(3)]
+			for i := 0; i+w <= n; i += w {
+				rev(b[i : i+w])
+			}
+		}
+		if bytes.Equal(b, actual) {
+			b[0] ^= 1
+		}
 		return b
 	case "two-words-cancel":
 		// differs from the actual value in two 1/2/4/8-byte words whose differences are equal (x, x) or cancel under
@@ -152,6 +180,10 @@ func drawList(t *rapid.T, name string, actual [][]byte, s *gen.Stream, maxLen in
 // drawPolicyQuote draws a structurally valid quote whose XFAM / TD_ATTRIBUTES sit at or one bit off the legal set.
 func drawPolicyQuote(t *rapid.T, s *gen.Stream) *gen.RefQuote {
 	q := gen.RandomRefQuote(s, 8, 16, 0)
+	if rapid.IntRange(0, 2).Draw(t, "intelVendorID") == 0 {
+		// the one QE vendor there is: Intel's identifier, as every real quote carries it
+		copy(q.VendorID[:], []byte{0x93, 0x9a, 0x72, 0x33, 0xf7, 0x9c, 0x4c, 0xa9, 0x94, 0x0a, 0x0d, 0xb3, 0x95, 0x7f, 0x06, 0x07})
+	}
 	x := gen.XfamFixed1 | (s.Uint64() & gen.XfamFixed0)
 	a := s.Uint64() & gen.TdAttrAllowed
 	switch rapid.IntRange(0, 5).Draw(t, "maskcase") {
@@ -526,12 +558,31 @@ func TestC08(t *testing.T) {
 		case 1:
 			p.MinPceSvn = drawWideSvn(t, "widepce", binary.LittleEndian.Uint16(q.Word8[:]))
 		}
+		if rapid.IntRange(0, 3).Draw(t, "onlyAnAllowList") == 0 {
+			// a policy that states an allow-list and nothing else: 2..6 non-empty values, the quote's MR_TD among them or not
+			p = &gen.PolicyFields{}
+			for k, n := 0, rapid.IntRange(2, 6).Draw(t, "allowListLen"); k < n; k++ {
+				p.AnyMrTd = append(p.AnyMrTd, s.Bytes(48))
+			}
+			if rapid.Bool().Draw(t, "member") {
+				p.AnyMrTd[s.Intn(len(p.AnyMrTd))] = append([]byte{}, q.MrTd[:]...)
+			}
+		}
+		// an allow-list may name a value twice (two releases with the same measurement): the same set
+		if n := len(p.AnyMrTd); n > 0 && rapid.IntRange(0, 2).Draw(t, "allowListNamesAValueTwice") == 0 {
+			k := rapid.IntRange(0, n-1).Draw(t, "repeated")
+			dup := append([]byte{}, p.AnyMrTd[k]...)
+			at := rapid.IntRange(0, n).Draw(t, "repeatedAt")
+			p.AnyMrTd = append(p.AnyMrTd[:at:at], append([][]byte{dup}, p.AnyMrTd[at:]...)...)
+			gen.Class("allow-list-names-a-value-twice")
+		}
 		mv := gen.PolicyModel(q, p)
+		pol := fieldsToPolicy(p, false, false)
 		var opts *validate.Options
 		gen.Eval()
 		vc := gen.Call(func() error {
 			var err error
-			opts, err = validate.PolicyToOptions(fieldsToPolicy(p, false, false))
+			opts, err = validate.PolicyToOptions(pol)
 			return err
 		})
 		rp := map[string]any{"kind": "policy", "raw_hex": hex.EncodeToString(q.Encode()), "policy": fieldsJSON(p), "no_header": false, "no_body": false, "nil_policy": false}
@@ -553,6 +604,21 @@ func TestC08(t *testing.T) {
 		if mv.Miss != "" && !mv.DontCare && v.Accepted() {
 			gen.Fail(t, gen.Violation{Key: "accepts-miss:converted-policy:" + mv.Miss, Oracle: "never accepts a quote that misses a configured expectation (options obtained by converting the policy message that states it)",
 				Detail: fmt.Sprintf("policy %v: expectation %s is missed, the policy converted and validation returned nil", fieldsJSON(p), mv.Miss), Replay: rp})
+			return
+		}
+		// the SAME policy message converted a second time (a service that converts per request), and the first options
+		// value used again afterwards: both mean what the message says
+		if opts2, err := validate.PolicyToOptions(pol); err == nil && opts2 != nil {
+			for which, o := range map[string]*validate.Options{"the options of a second conversion of the same message": opts2, "the first options value after the message was converted again": opts} {
+				gen.Eval()
+				if v2 := gen.Call(func() error { return validate.TdxQuote(m, o) }); mv.Miss != "" && !mv.DontCare && (v2.Accepted() || v2.Panicked()) {
+					gen.Fail(t, gen.Violation{Key: "accepts-miss:converted-policy-twice:" + mv.Miss, Oracle: "never accepts a quote that misses a configured expectation (options obtained by converting the policy message that states it)",
+						Detail: fmt.Sprintf("policy %v: expectation %s is missed; %s: %s", fieldsJSON(p), mv.Miss, which, v2), Replay: rp})
+					return
+				}
+			}
+		} else if err != nil {
+			gen.Fail(t, gen.Violation{Key: "second-conversion-fails", Oracle: "validation under options converted from a policy means what the policy says", Detail: fmt.Sprintf("policy %v converted once and fails to convert a second time: %v", fieldsJSON(p), err), Replay: rp})
 			return
 		}
 		gen.Class("policy-conversion-succeeds")
